@@ -298,9 +298,12 @@ class AstToSqlVisitor(visitor.NodeVisitor):
         try:
             # Grammar has already validated that the function is valid OData,
             # but that doesn't guarantee we can represent it in SQL:
-            sql_gen = getattr(self, "sqlfunc_" + node.func.name.lower())
+            # Functions in a namespace (e.g. `geo.length`) are different functions
+            # than their un-namespaced namesakes (e.g. `length`):
+            func_name = node.func.full_name().replace(".", "__")
+            sql_gen = getattr(self, "sqlfunc_" + func_name.lower())
         except AttributeError:
-            raise exceptions.UnsupportedFunctionException(node.func.name)
+            raise exceptions.UnsupportedFunctionException(node.func.full_name())
 
         return sql_gen(*node.args)
 
